@@ -24,6 +24,10 @@ NULL == 0 - 99999
 HALF == 777001          \* 1.5
 PINF == 777002
 NINF == 777003
+\* a 64-bit integer that no float holds exactly and that sits just above a midpoint of two
+\* neighbouring f32 values (2^53 + 2^29 + 1): converting it to f32 directly and via f64 differ.
+\* TLC cannot hold it; like the infinities it is a value class whose image is the language's own.
+BIG53 == 777004
 
 Floats   == {"f32", "f64"}
 SInts    == {"i32", "i64", "isize"}
@@ -45,11 +49,12 @@ RECURSIVE HasVal(_, _)
 HasVal(t, v) ==
     IF IsOpt(t) THEN v = NULL \/ HasVal(Inner(t), v)
     ELSE CASE t \in Floats -> v \in Ints \cup {NULL, HALF, PINF, NINF}
-           [] t \in SInts  -> v \in Ints
+           [] t = "i32"    -> v \in Ints
+           [] t \in SInts  -> v \in Ints \cup {BIG53}
            [] t = "u8"     -> v \in {0, 1, 2, 200}
-           [] t \in UInts  -> v \in {0, 1, 2, 200, 300}
+           [] t \in UInts  -> v \in {0, 1, 2, 200, 300, BIG53}
            [] t = "bool"   -> v \in {0, 1}
-Universe == Ints \cup {NULL, HALF, PINF, NINF}
+Universe == Ints \cup {NULL, HALF, PINF, NINF, BIG53}
 
 InRange(v, t) ==       \* integer v representable in the integer type t
     CASE t \in SInts -> TRUE
@@ -58,10 +63,10 @@ InRange(v, t) ==       \* integer v representable in the integer type t
 
 \* cast of a NON-NULL value class between base types
 CastVal(v, to) ==
-    CASE to \in Floats -> IF v = HALF THEN <<"val", 3, 2>> ELSE IF v \in {PINF, NINF} THEN <<"lang">> ELSE <<"val", v, 1>>
+    CASE to \in Floats -> IF v = HALF THEN <<"val", 3, 2>> ELSE IF v \in {PINF, NINF, BIG53} THEN <<"lang">> ELSE <<"val", v, 1>>
       [] to \in SInts \cup UInts ->
             IF v = HALF THEN <<"val", 1, 1>>                           \* truncation toward zero
-            ELSE IF v \in {PINF, NINF} THEN <<"lang">>                 \* saturation
+            ELSE IF v \in {PINF, NINF, BIG53} THEN <<"lang">>          \* saturation / wrap / identity
             ELSE IF InRange(v, to) THEN <<"val", v, 1>> ELSE <<"lang">> \* wrap
       [] to = "bool" -> IF v \in {0, 1} THEN <<"val", v, 1>> ELSE <<"panic">>
 
@@ -98,7 +103,7 @@ PredicatesCoherent ==
 
 (* ---- sort comparators ------------------------------------------------------------- *)
 
-Num(v) == CASE v = HALF -> 15 [] v = PINF -> 100000 [] v = NINF -> 0 - 100000 [] OTHER -> 10 * v
+Num(v) == CASE v = HALF -> 15 [] v = PINF -> 100000 [] v = NINF -> 0 - 100000 [] v = BIG53 -> 90000 [] OTHER -> 10 * v
 Sgn(x) == IF x < 0 THEN 0 - 1 ELSE IF x > 0 THEN 1 ELSE 0
 \* ascending by value, nulls last
 Cmp(a, b) == IF a = NULL /\ b = NULL THEN 0 ELSE IF a = NULL THEN 1 ELSE IF b = NULL THEN 0 - 1
